@@ -199,9 +199,10 @@ func scCounterfeit(r *Run) {
 		if kind == fkWrongKEM && !hidden {
 			kind = fkWrongKey
 		}
-		policy := r.Intn("policy", 3) // 0 store+name, 1 store without name, 2 skip verification
+		pinOK := true
+		policy := r.Intn("policy", 4) // 0 store+name, 1 store without name, 2 skip verification, 3 skip verification + pinned key
 		r.SetCfg("impostor", "server/"+fakeNames[kind])
-		r.SetCfg("client-policy", []string{"store+name", "store", "skip"}[policy])
+		r.SetCfg("client-policy", []string{"store+name", "store", "skip", "skip+pin"}[policy])
 		id := makeIdentity(r, kind, pki, serverName, otherName)
 		realKEM, err := keys.GenerateKEMKeyPair(cryptorand.Reader)
 		must(err)
@@ -232,6 +233,21 @@ func scCounterfeit(r *Run) {
 			ccfg.Verify.Name = certs.Name{}
 		case 2:
 			ccfg.Verify = transport.VerifyConfig{InsecureSkipVerify: true, Name: serverName}
+		case 3:
+			// what the principal of an authorization grant does: no chain verification, but the presented leaf
+			// must carry the key that was pinned for this server
+			pin := keys.DHPublicKey(id.leaf.PublicKey)
+			if kind != fkHonest && kind != fkWrongKey && kind != fkWrongKEM {
+				pin = newX25519().Public // (the key of the genuine server, which this impostor does not present)
+			}
+			pinOK = kind == fkHonest || kind == fkWrongKey || kind == fkWrongKEM
+			ccfg.Verify = transport.VerifyConfig{InsecureSkipVerify: true, Name: serverName,
+				AddVerifyCallback: func(c *certs.Certificate) error {
+					if keys.DHPublicKey(c.PublicKey) != pin {
+						return fmt.Errorf("leaf carries another key than the pinned one")
+					}
+					return nil
+				}}
 		}
 		if hidden {
 			ccfg.ServerKEMKey = &realKEM.Public
@@ -250,6 +266,8 @@ func scCounterfeit(r *Run) {
 			authentic = authentic && id.chainOK && id.nameOK
 		case 1:
 			authentic = authentic && id.chainOK
+		case 3:
+			authentic = authentic && pinOK
 		}
 		r.Obligation(1)
 		if kind != fkHonest {
@@ -258,7 +276,7 @@ func scCounterfeit(r *Run) {
 		if herr == nil && !authentic {
 			r.Violate("C01/client-accepted-counterfeit-server/"+fakeNames[kind],
 				"client Handshake() succeeded (mode hidden=%v, client policy %s) with a server presenting: %s (possession=%v chainOK=%v nameOK=%v)",
-				hidden, []string{"store+name", "store", "skip"}[policy], fakeNames[kind], id.possession, id.chainOK, id.nameOK)
+				hidden, []string{"store+name", "store", "skip", "skip+pin"}[policy], fakeNames[kind], id.possession, id.chainOK, id.nameOK)
 		}
 		if herr != nil && kind == fkHonest && benign {
 			r.Violate("C01/nofault/honest-server-rejected", "honest server rejected on a faithful network (hidden=%v policy=%d): %v", hidden, policy, herr)
